@@ -223,7 +223,7 @@ def stepEngine (st0 : SuiteState) (toks : List String) : SuiteState × String :=
     | some (k, v) =>
       let st1 := match opt opts "rewrite" with
         | some rw => engCommit st [(.put k (unhx rw), 0)]
-        | none => st
+        | none => if opt opts "remove" == some "1" then engCommit st [(.del k, 0)] else st
       let eng := st1.eng
       -- badger compares versions: a rewrite (even with the same bytes) fails the delete
       let r := match opt opts "rewrite" with
